@@ -21,16 +21,18 @@ ASSUMPTIONS = ["KeyboardInterrupt inside hooks is outside the quantifier",
 
 
 def shapes():
-    s1 = P.S(("pass",), tags=("st",))
-    s2 = P.S(("pass", "pass"), tags=("st", "s2"))
-    o1 = P.O((("pass",),), tags=("ot",), extags=("et",))
-    o2 = P.O((("pass",), ("pass",)), tags=("ot",), extags=("et",))
+    # tag names are chosen to contain the words the hook dispatcher looks for in HOOK names ("all", "tag", "step",
+    # "feature", "scenario", "rule"): a tag's text must never change which element a failing tag hook is attributed to
+    s1 = P.S(("pass",), tags=("small",))
+    s2 = P.S(("pass", "pass"), tags=("small", "stepall"))
+    o1 = P.O((("pass",),), tags=("scenario_tag",), extags=("feature.x",))
+    o2 = P.O((("pass",), ("pass",)), tags=("scenario_tag",), extags=("feature.x",))
     su = P.S(("pass",), tags=("u",))
     pres = [(), (s1,), (o1,), (s2, o2)]
     rules = [(s1,), (o2,), (s1, o1), (o1, s2)]
     for pre, ritems, bgmode in itertools.product(pres, rules, (0, 1, 2)):
-        rule = P.R(ritems + (su,), tags=("rt",), bg=("pass",) if bgmode == 2 else None)
-        yield P.F(pre + (rule,), tags=("ft",), bg=("pass",) if bgmode >= 1 else None)
+        rule = P.R(ritems + (su,), tags=("rule_all",), bg=("pass",) if bgmode == 2 else None)
+        yield P.F(pre + (rule,), tags=("all",), bg=("pass",) if bgmode >= 1 else None)
 
 
 SECOND = P.F((P.S(("pass",)),))
